@@ -102,6 +102,18 @@ def check(pid, tier='quick', seed=0):
         _evidence(pid, tier, seed, cfg, verdicts, bounded, 0, time.time() - t0, note='harness errors')
         return 3
     bfail = bounded['failures'] if bounded else []
+    # contract monitor: the T clauses evaluated numerically on the real functions (counts as bounded evidence)
+    mon = None
+    try:
+        p = subprocess.run([NATIVE_PY, '-m', 'vt.runtime.monitor', pid, '3' if tier == 'quick' else '12'], cwd=VERIF, env=native_env(),
+                           capture_output=True, text=True, timeout=600)
+        if p.returncode == 0 and p.stdout.strip():
+            mon = json.loads(p.stdout.strip().splitlines()[-1])
+            bfail = bfail + mon['failures']
+            if bounded is not None:
+                bounded['monitor'] = dict(evaluations=mon['evaluations'], failures=len(mon['failures']))
+    except Exception:
+        mon = None
     # engine F: a static must-alias is reported as a violation only when the native snapshot monitor confirms it
     # (the analysis does not know which values are immutable); otherwise it is undecided and the monitor decides
     for v in list(refuted):
@@ -230,7 +242,7 @@ def _evidence(pid, tier, seed, cfg, verdicts, bounded, nviol, wall, note=''):
         cov.update(evaluations=bounded['evaluations'], distinct_nontrivial=bounded['distinct_nontrivial'],
                    rule=bounded.get('rule', ''), samples=bounded.get('samples', [])[:6],
                    bounded=dict(label='BOUNDED stand-in, never counted as proved', bounds=bounded.get('bounds'),
-                                kinds=bounded.get('kinds'), wall_s=round(bounded.get('wall_s', 0), 2),
+                                kinds=bounded.get('kinds'), wall_s=round(bounded.get('wall_s', 0), 2), contract_monitor=bounded.get('monitor'),
                                 failures=len(bounded.get('failures', []))),
                    exhaustive=bounded.get('exhaustive', False))
     else:
